@@ -80,6 +80,28 @@ func buildTrie(c content, sh Shared, mode int) (*wmpt.WeightedMerkleTrie, *model
 		}
 		_ = b.Commit(false)
 		t = Reopened(s, m.Root(), m.Total())
+	case 5, 6:
+		// a snapshot (CopyRoot, fully in memory / collapsed below level 1) of a committed trie whose source
+		// goes on changing every key afterwards: the snapshot keeps the content it was taken with
+		b, err := t.Commit(64)
+		if err != nil {
+			panic(err)
+		}
+		if err := b.Commit(false); err != nil {
+			panic(err)
+		}
+		snap := wmpt.New(t.CopyRoot([]int{64, 1}[mode-5]), s)
+		for i, k := range c.keys {
+			v := sh.value(map[string]string{"a": "b", "b": "c", "c": "a"}[c.vals[i]], k)
+			if i%2 == 1 {
+				v = ""
+			}
+			if err := t.Update(Keys[k], []byte(v), Weight(v)); err != nil {
+				panic(err)
+			}
+		}
+		_ = t.Root()
+		t = snap
 	}
 	return t, m
 }
@@ -323,9 +345,9 @@ func refVerify(es proofElems, block uint64) (root, value []byte, ok bool) {
 func C10(tier rt.Tier) int {
 	rep := rt.NewReport("C10", tier)
 	// bit flips are enumerated for contents of <= flipKeys keys, structural tampering for all
-	maxKeys, flipKeys, modes := 3, 2, []int{0, 1, 4}
+	maxKeys, flipKeys, modes := 3, 2, []int{0, 1, 4, 5}
 	if tier == rt.Thorough {
-		maxKeys, flipKeys, modes = 4, 3, []int{0, 1, 2, 3, 4}
+		maxKeys, flipKeys, modes = 4, 3, []int{0, 1, 2, 3, 4, 5, 6}
 	}
 	cs := contents(maxKeys, []string{"a", "b"})
 	// a second trie whose proof elements serve as substitution material
